@@ -109,16 +109,19 @@ fn res_state(r: &str, sig: &str, s: &TrapState) -> Value {
 
 impl World {
     /// A fresh shell process whose inherited dispositions are `init`
-    /// (signal name -> "D" | "I").
+    /// (signal name -> "D" | "I" | "C"; "C" = a handler installed before the
+    /// shell started, like the Rust runtime's for SEGV and BUS on a real kernel).
     pub fn new(init: &Value) -> World {
         let vs = VirtualSystem::new();
         if let Some(m) = init.as_object() {
             for (k, v) in m {
-                if v == "I" {
-                    let n = signal_of(k).expect("signal name in init");
-                    vs.current_process_mut()
-                        .set_disposition(n, Disposition::Ignore);
-                }
+                let d = match v.as_str() {
+                    Some("I") => Disposition::Ignore,
+                    Some("C") => Disposition::Catch,
+                    _ => continue,
+                };
+                let n = signal_of(k).expect("signal name in init");
+                vs.current_process_mut().set_disposition(n, d);
             }
         }
         let env = Env::with_system(Rc::new(Concurrent::new(vs.clone())));
@@ -282,6 +285,23 @@ impl World {
     }
 }
 
+/// Is a handler that the shell did not install (inherited "C", never blocked
+/// by the shell) still in place for the signal of a `deliver` operation?  What
+/// such a handler does with a signal is not the shell's business: those
+/// deliveries are not exercised.
+fn foreign_handler(w: &World, op: &Value) -> bool {
+    if op["op"] != "deliver" {
+        return false;
+    }
+    match signal_of(op["c"].as_str().unwrap_or("")) {
+        None => false,
+        Some(n) => {
+            let p = w.vs.current_process();
+            p.disposition(n) == Disposition::Catch && p.blocked_signals().contains(n) != Ok(true)
+        }
+    }
+}
+
 fn errno(r: Result<(), yash_env::system::Errno>) -> Value {
     match r {
         Ok(()) => res("ok"),
@@ -435,6 +455,7 @@ pub fn replay(args: &[String]) -> i32 {
     let ops = alphabet(&conds);
     let mut out = util::open_out(args);
     let (mut states, mut tries, mut written, mut drift, mut dead_hist) = (0u64, 0u64, 0u64, 0u64, 0u64);
+    let mut foreign = 0u64;
     for line in util::open_in(args).lines() {
         let line = line.unwrap();
         if line.trim().is_empty() {
@@ -469,6 +490,10 @@ pub fn replay(args: &[String]) -> i32 {
         drop(w);
         for op in ops.iter() {
             let mut w2 = rebuild(&init, &hist, &conds).expect("history replays");
+            if foreign_handler(&w2, op) {
+                foreign += 1;
+                continue;
+            }
             let (rec, _) = step(&mut w2, op, &conds, "try");
             writeln!(out, "{rec}").unwrap();
             written += 1;
@@ -479,7 +504,8 @@ pub fn replay(args: &[String]) -> i32 {
     eprintln!(
         "{}",
         json!({"states": states, "tries": tries, "records": written, "drift": drift,
-               "histories_not_survived": dead_hist, "alphabet": ops.len()})
+               "histories_not_survived": dead_hist, "alphabet": ops.len(),
+               "deliveries_to_foreign_handler_skipped": foreign})
     );
     0
 }
@@ -531,8 +557,15 @@ pub fn random(args: &[String]) -> i32 {
         let mut init = serde_json::Map::new();
         for c in &conds {
             if c != "EXIT" {
-                let ign = c != "KILL" && c != "STOP" && rng.gen_bool(0.3);
-                init.insert(c.clone(), json!(if ign { "I" } else { "D" }));
+                let free = c != "KILL" && c != "STOP";
+                let v = if free && rng.gen_bool(0.3) {
+                    "I"
+                } else if free && rng.gen_bool(0.15) {
+                    "C"
+                } else {
+                    "D"
+                };
+                init.insert(c.clone(), json!(v));
             }
         }
         let init = Value::Object(init);
@@ -542,6 +575,9 @@ pub fn random(args: &[String]) -> i32 {
         for _ in 0..steps {
             let op = random_op(&mut rng, &conds);
             // deliveries that kill or stop the shell end the history: make them rare
+            if foreign_handler(&w, &op) {
+                continue;
+            }
             if op["op"] == "deliver" {
                 let c = op["c"].as_str().unwrap();
                 let fatal = w.project(&conds)["c"][c]["sys"] == "D" && c != "CHLD";
@@ -729,6 +765,10 @@ pub fn midop(args: &[String]) -> i32 {
                 continue;
             }
             for s in &sigs {
+                let w0 = rebuild(&init, &hist, &conds).unwrap();
+                if foreign_handler(&w0, &mkop("deliver", s, "", false, false, false)) {
+                    continue;
+                }
                 for k in 2..=n {
                     let rec = mid_record(&init, &hist, &conds, op, s, k, n);
                     // the verdict on a mid record depends on (op, sig, k, a, b, m) only:
